@@ -513,11 +513,13 @@ def wrap(
     Also ensures that the `initial_indent` and `subsequent_indent` are not taken into
     account for the wrapping position.
     """
-    [first, *rest] = [
+    lines = [
         line
         for paragraph in text.splitlines()
         for line in (textwrap.wrap(paragraph, width, **kwargs) if paragraph else [""])
     ]
+    # Text without any words (empty or only blanks) still renders as one empty line
+    [first, *rest] = lines or [""]
     # Manually take care of `initial_indent` and `subsequent_indent` since we don't
     # want them to count towards `width`
     return [initial_indent + first, *(subsequent_indent + line for line in rest)]
